@@ -1,3 +1,722 @@
+(** Proofs about the model in Gds/GdsReal.v (GDSII eight-byte real codec).
+    The theorems of Properties/C15.v are closed by [exact] with the lemmas of this file.
+    No axioms: everything is integer arithmetic over [Z]. *)
 From Coq Require Import ZArith Bool Lia.
 From L21 Require Import Base.F64 Gds.GdsReal.
 Local Open Scope Z_scope.
+
+(** * Definitions used by the property statements (Properties/C15.v) *)
+
+Definition rne_of (M q : Z) : Prop :=
+  let sh := Z.log2 M - 52 in
+  two52 <= q <= two53 /\
+  (sh <= 0 -> q = M * 2 ^ (- sh)) /\
+  (0 < sh -> 2 * Z.abs (M - q * 2 ^ sh) <= 2 ^ sh /\
+             (2 * Z.abs (M - q * 2 ^ sh) = 2 ^ sh -> Z.even q = true)).
+
+Definition f64_of_dyadic (s : bool) (q e : Z) : Z :=
+  if q =? two53 then f64_of_norm s two52 (e + 1) else f64_of_norm s q e.
+
+Definition sig53 (M : Z) : Prop := M mod 2 ^ (Z.log2 M - 52) = 0.
+
+(** * Tactics *)
+
+Ltac consts := unfold two52, two53, two56, two63, two64 in *.
+(** linear arithmetic with division and modulus by literals *)
+Ltac dm_lia := Z.div_mod_to_equations; lia.
+(** replace the closed power [2 ^ n] by its value everywhere *)
+Ltac pow_lit n :=
+  let v := eval vm_compute in (2 ^ n) in change (2 ^ n) with v in *.
+
+Lemma two52_eq : two52 = 2 ^ 52. Proof. reflexivity. Qed.
+Lemma two53_eq : two53 = 2 ^ 53. Proof. reflexivity. Qed.
+Lemma two56_eq : two56 = 2 ^ 56. Proof. reflexivity. Qed.
+Lemma two63_eq : two63 = 2 ^ 63. Proof. reflexivity. Qed.
+Lemma two64_eq : two64 = 2 ^ 64. Proof. reflexivity. Qed.
+
+(** * Layer A: binary64 bit patterns *)
+
+Lemma bexp_of_norm s m e :
+  two52 <= m < two53 -> 1 <= e + 1075 <= 2046 ->
+  f64_bexp (f64_of_norm s m e) = e + 1075.
+Proof.
+  intros Hm He. unfold f64_bexp, f64_of_norm. consts. destruct s; dm_lia.
+Qed.
+
+Lemma frac_of_norm s m e :
+  two52 <= m < two53 -> 1 <= e + 1075 <= 2046 ->
+  f64_frac (f64_of_norm s m e) = m - two52.
+Proof.
+  intros Hm He. unfold f64_frac, f64_of_norm. consts. destruct s; dm_lia.
+Qed.
+
+Lemma sign_of_norm s m e :
+  two52 <= m < two53 -> 1 <= e + 1075 <= 2046 ->
+  f64_sign (f64_of_norm s m e) = s.
+Proof.
+  intros Hm He. unfold f64_sign, f64_of_norm. consts.
+  destruct s; [apply Z.leb_le | apply Z.leb_gt]; lia.
+Qed.
+
+Lemma word_of_norm s m e :
+  two52 <= m < two53 -> 1 <= e + 1075 <= 2046 ->
+  word64 (f64_of_norm s m e).
+Proof.
+  intros Hm He. unfold word64, f64_of_norm. consts. destruct s; lia.
+Qed.
+
+Lemma normal_of_norm s m e :
+  two52 <= m < two53 -> 1 <= e + 1075 <= 2046 ->
+  f64_normal (f64_of_norm s m e).
+Proof.
+  intros Hm He. split; [apply word_of_norm; assumption|].
+  rewrite bexp_of_norm by assumption. exact He.
+Qed.
+
+Lemma decomp_of_norm s m e :
+  two52 <= m < two53 -> 1 <= e + 1075 <= 2046 ->
+  f64_decomp (f64_of_norm s m e) = Some (s, m, e).
+Proof.
+  intros Hm He. unfold f64_decomp. cbv zeta.
+  rewrite (bexp_of_norm s m e Hm He), (frac_of_norm s m e Hm He), (sign_of_norm s m e Hm He).
+  destruct (Z.eqb_spec (e + 1075) 2047) as [H1|H1]; [lia|].
+  destruct (Z.eqb_spec (e + 1075) 0) as [H2|H2]; [lia|].
+  replace (m - two52 + two52) with m by lia.
+  replace (e + 1075 - 1075) with e by lia. reflexivity.
+Qed.
+
+Lemma norm_of_decomp x s m e :
+  f64_normal x -> f64_decomp x = Some (s, m, e) ->
+  x = f64_of_norm s m e /\ two52 <= m < two53 /\ 1 <= e + 1075 <= 2046.
+Proof.
+  intros [Hw Hb] Hd. unfold f64_decomp in Hd. cbv zeta in Hd.
+  destruct (Z.eqb_spec (f64_bexp x) 2047) as [H1|H1]; [lia|].
+  destruct (Z.eqb_spec (f64_bexp x) 0) as [H2|H2]; [lia|].
+  injection Hd as Hs Hm He. subst s m e.
+  unfold f64_of_norm, f64_sign, f64_frac, f64_bexp, word64 in *. consts.
+  destruct (Z.leb_spec 9223372036854775808 x) as [H3|H3]; dm_lia.
+Qed.
+
+Lemma bexp_range x : 0 <= f64_bexp x < 2048.
+Proof. unfold f64_bexp. apply Z.mod_pos_bound. lia. Qed.
+
+Lemma log2_norm m : two52 <= m < two53 -> Z.log2 m = 52.
+Proof.
+  intros Hm. apply Z.log2_unique; [lia|].
+  change (2 ^ 52) with two52. change (2 ^ Z.succ 52) with two53. exact Hm.
+Qed.
+
+(** * Comparison with a power of two *)
+
+Lemma dy_lt_pow2_log2 m e p :
+  0 < m -> dy_lt_pow2 m e p = (Z.log2 m + e <? p).
+Proof.
+  intros Hm. unfold dy_lt_pow2.
+  pose proof (Z.log2_nonneg m) as Hl.
+  destruct (Z.le_gt_cases p e) as [Hpe|Hpe].
+  - rewrite (Z.max_r 0 (e - p)) by lia. rewrite (Z.max_l 0 (p - e)) by lia.
+    rewrite Z.pow_0_r.
+    assert (Hp : 0 < 2 ^ (e - p)) by (apply Z.pow_pos_nonneg; lia).
+    transitivity false; [apply Z.ltb_ge; nia | symmetry; apply Z.ltb_ge; lia].
+  - rewrite (Z.max_l 0 (e - p)) by lia. rewrite (Z.max_r 0 (p - e)) by lia.
+    rewrite Z.pow_0_r, Z.mul_1_r.
+    destruct (Z.ltb_spec m (2 ^ (p - e))) as [H|H]; symmetry.
+    + apply Z.ltb_lt. apply Z.log2_lt_pow2 in H; lia.
+    + apply Z.ltb_ge. destruct (Z.lt_ge_cases (Z.log2 m) (p - e)) as [H2|H2]; [|lia].
+      apply Z.log2_lt_pow2 in H2; lia.
+Qed.
+
+(** The characterisation asked for in DESIGN: [dy_lt_pow2] decides m*2^e < 2^p. *)
+Lemma dy_lt_pow2_spec m e p :
+  0 <= m ->
+  (dy_lt_pow2 m e p = true <-> m * 2 ^ (Z.max 0 (e - p)) < 2 ^ (Z.max 0 (p - e))).
+Proof. intros _. unfold dy_lt_pow2. apply Z.ltb_lt. Qed.
+
+Lemma dy_lt_pow2_mono m e p p' :
+  0 < m -> p <= p' -> dy_lt_pow2 m e p = true -> dy_lt_pow2 m e p' = true.
+Proof.
+  intros Hm Hp. rewrite !dy_lt_pow2_log2 by exact Hm.
+  intros H. apply Z.ltb_lt in H. apply Z.ltb_lt. lia.
+Qed.
+
+(** * The exponent search *)
+
+Lemma adj_down_spec m e :
+  0 < m -> forall fuel ex, -64 <= ex -> ex + 64 <= Z.of_nat fuel ->
+  adj_down fuel m e ex = Z.max (-64) (Z.min ex (true_exp16 m e)).
+Proof.
+  intros Hm. induction fuel as [|f IH]; intros ex Hlo Hf.
+  - cbn [adj_down]. lia.
+  - cbn [adj_down]. rewrite dy_lt_pow2_log2 by exact Hm.
+    unfold true_exp16 in *. cbv zeta in *.
+    destruct (Z.ltb_spec (-64) ex) as [H1|H1];
+      destruct (Z.ltb_spec (Z.log2 m + e) (4 * (ex - 1))) as [H2|H2]; cbn [andb].
+    + rewrite IH by lia. dm_lia.
+    + dm_lia.
+    + dm_lia.
+    + dm_lia.
+Qed.
+
+Lemma adj_up_spec m e :
+  0 < m -> forall fuel ex, ex <= 63 -> 63 - ex <= Z.of_nat fuel ->
+  adj_up fuel m e ex = Z.min 63 (Z.max ex (true_exp16 m e)).
+Proof.
+  intros Hm. induction fuel as [|f IH]; intros ex Hhi Hf.
+  - cbn [adj_up]. lia.
+  - cbn [adj_up]. rewrite dy_lt_pow2_log2 by exact Hm.
+    unfold true_exp16 in *. cbv zeta in *.
+    destruct (Z.ltb_spec ex 63) as [H1|H1];
+      destruct (Z.ltb_spec (Z.log2 m + e) (4 * ex)) as [H2|H2]; cbn [andb negb].
+    + dm_lia.
+    + rewrite IH by lia. dm_lia.
+    + dm_lia.
+    + dm_lia.
+Qed.
+
+(** 128 iterations are enough for both loops, whatever the estimate. *)
+Lemma adj_fuel_enough est m e :
+  0 < m -> gds_exponent est m e = clampZ (-64) 63 (true_exp16 m e).
+Proof.
+  intros Hm. unfold gds_exponent.
+  assert (Hf : Z.of_nat adj_fuel = 128) by reflexivity.
+  assert (Hc : -64 <= clampZ (-64) 63 est <= 63) by (unfold clampZ; lia).
+  rewrite (adj_down_spec m e Hm adj_fuel) by lia.
+  rewrite (adj_up_spec m e Hm adj_fuel) by lia.
+  unfold clampZ in *. lia.
+Qed.
+
+(** * Fields of an eight-byte real *)
+
+Definition sbit (s : bool) : Z := if s then 128 else 0.
+
+Lemma gds_fields w s X Mt :
+  w = (sbit s + X) * two56 + Mt -> 0 <= X <= 127 -> 0 <= Mt < two56 ->
+  word64 w /\ gds_sign w = s /\ gds_exp7 w = X /\ gds_mant w = Mt.
+Proof.
+  intros Hw HX HM. subst w. unfold word64, gds_sign, gds_exp7, gds_mant, sbit. consts.
+  destruct s.
+  - repeat split; try lia; dm_lia.
+  - repeat split; try lia; dm_lia.
+Qed.
+
+Lemma word_fields w :
+  word64 w ->
+  w = (sbit (gds_sign w) + gds_exp7 w) * two56 + gds_mant w /\
+  0 <= gds_exp7 w <= 127 /\ 0 <= gds_mant w < two56.
+Proof.
+  intros Hw. unfold word64, gds_sign, gds_exp7, gds_mant, sbit in *. consts.
+  destruct (Z.leb_spec 9223372036854775808 w) as [H|H]; dm_lia.
+Qed.
+
+(** * [u64 as f64] on a 56-bit integer *)
+
+Lemma rne53_small M :
+  0 < M -> Z.log2 M <= 52 -> rne53 M = (M * 2 ^ (52 - Z.log2 M), Z.log2 M).
+Proof.
+  intros HM HL. unfold rne53. cbv zeta.
+  destruct (Z.leb_spec (Z.log2 M) 52) as [H|H]; [reflexivity | lia].
+Qed.
+
+Lemma small_scaled_range M :
+  0 < M -> Z.log2 M <= 52 -> two52 <= M * 2 ^ (52 - Z.log2 M) < two53.
+Proof.
+  intros HM HL.
+  pose proof (Z.log2_nonneg M) as H0.
+  pose proof (Z.log2_spec M HM) as [Hlo Hhi].
+  assert (Hp : 0 < 2 ^ (52 - Z.log2 M)) by (apply Z.pow_pos_nonneg; lia).
+  assert (E1 : 2 ^ Z.log2 M * 2 ^ (52 - Z.log2 M) = two52).
+  { rewrite <- Z.pow_add_r by lia. replace (Z.log2 M + (52 - Z.log2 M)) with 52 by lia. reflexivity. }
+  assert (E2 : 2 ^ Z.succ (Z.log2 M) * 2 ^ (52 - Z.log2 M) = two53).
+  { rewrite <- Z.pow_add_r by lia. replace (Z.succ (Z.log2 M) + (52 - Z.log2 M)) with 53 by lia. reflexivity. }
+  split.
+  - rewrite <- E1. apply Z.mul_le_mono_nonneg_r; lia.
+  - rewrite <- E2. apply Z.mul_lt_mono_pos_r; lia.
+Qed.
+
+(** a value that already fits 53 bits is not changed *)
+Lemma rne53_exact m j :
+  two52 <= m < two53 -> 0 <= j <= 3 -> rne53 (m * 2 ^ j) = (m, 52 + j).
+Proof.
+  intros Hm Hj.
+  assert (Hm0 : 0 < m) by (consts; lia).
+  assert (HL : Z.log2 (m * 2 ^ j) = 52 + j).
+  { rewrite Z.log2_mul_pow2 by lia. rewrite (log2_norm m Hm). lia. }
+  assert (Hp : 0 < 2 ^ j) by (apply Z.pow_pos_nonneg; lia).
+  unfold rne53. cbv zeta. rewrite HL.
+  destruct (Z.leb_spec (52 + j) 52) as [H|H].
+  - assert (j = 0) by lia. subst j. change (2 ^ 0) with 1.
+    change (2 ^ (52 - (52 + 0))) with 1. rewrite !Z.mul_1_r. reflexivity.
+  - replace (52 + j - 52) with j by lia.
+    rewrite Z.div_mul by lia. rewrite Z.mod_mul by lia.
+    assert (Hh : 0 < 2 ^ (j - 1)) by (apply Z.pow_pos_nonneg; lia).
+    destruct (Z.ltb_spec (2 ^ (j - 1)) 0) as [H1|H1]; [lia|].
+    destruct (Z.eqb_spec (2 ^ (j - 1)) 0) as [H2|H2]; [lia|].
+    cbn [orb andb].
+    destruct (Z.eqb_spec m two53) as [H3|H3]; [lia|]. reflexivity.
+Qed.
+
+(** one rounding case, for a literal shift *)
+Ltac rne_case HM H :=
+  match type of H with
+  | Z.log2 ?M = ?L =>
+    let Hsp := fresh "Hsp" in
+    pose proof (Z.log2_spec M HM) as Hsp;
+    unfold rne53, rne_of; cbv zeta; rewrite H in Hsp |- *;
+    change (L <=? 52) with false; cbv iota;
+    pow_lit (L - 52); pow_lit (L - 52 - 1); pow_lit L; pow_lit (Z.succ L)
+  end.
+
+Lemma rne53_spec M :
+  0 < M < two56 ->
+  exists q, rne_of M q /\
+    rne53 M = if q =? two53 then (two52, Z.log2 M + 1) else (q, Z.log2 M).
+Proof.
+  intros [HM Hlt].
+  pose proof (Z.log2_nonneg M) as H0.
+  assert (H55 : Z.log2 M < 56).
+  { apply Z.log2_lt_pow2; [exact HM|]. rewrite <- two56_eq. exact Hlt. }
+  destruct (Z.le_gt_cases (Z.log2 M) 52) as [Hs|Hb].
+  - exists (M * 2 ^ (52 - Z.log2 M)).
+    pose proof (small_scaled_range M HM Hs) as Hr.
+    split.
+    + unfold rne_of. cbv zeta. split; [lia|]. split.
+      * intros _. f_equal. f_equal. lia.
+      * intros Hc. lia.
+    + rewrite (rne53_small M HM Hs).
+      destruct (Z.eqb_spec (M * 2 ^ (52 - Z.log2 M)) two53) as [H|H]; [lia | reflexivity].
+  - assert (Hc : Z.log2 M = 53 \/ Z.log2 M = 54 \/ Z.log2 M = 55) by lia.
+    destruct Hc as [Hc|[Hc|Hc]].
+    all: rne_case HM Hc.
+    all: eexists; split; [|reflexivity].
+    all: consts.
+    all: match goal with
+         | |- context [?h <? ?r] =>
+           destruct (Z.ltb_spec h r) as [H1|H1]; destruct (Z.eqb_spec h r) as [H2|H2]
+         end.
+    all: match goal with
+         | |- context [Z.odd ?q] => destruct (Z.odd q) eqn:Hodd
+         end.
+    all: cbn [orb andb].
+    all: (split; [dm_lia|]); (split; [intros Hx; exfalso; lia|]); intros _;
+         (split; [dm_lia|]); intros Heq.
+    all: try (exfalso; dm_lia).
+    all: try (rewrite Z.add_1_r, Z.even_succ; exact Hodd).
+    all: try (rewrite <- Z.negb_odd, Hodd; reflexivity).
+Qed.
+
+(** * decode *)
+
+Lemma gds_decode_nz w m k :
+  gds_mant w <> 0 -> rne53 (gds_mant w) = (m, k) ->
+  gds_decode w = f64_of_norm (gds_sign w) m (k - 52 + gds_e2 w).
+Proof.
+  intros Hnz Hr. unfold gds_decode. cbv zeta.
+  destruct (Z.eqb_spec (gds_mant w) 0) as [H|H]; [contradiction|].
+  rewrite Hr. reflexivity.
+Qed.
+
+Lemma pow2_small j : 0 <= j <= 3 -> 1 <= 2 ^ j <= 8.
+Proof.
+  intros Hj. assert (Hc : j = 0 \/ j = 1 \/ j = 2 \/ j = 3) by lia.
+  destruct Hc as [Hc|[Hc|[Hc|Hc]]]; subst j; cbv; split; discriminate.
+Qed.
+
+(** decoding a normalised real whose mantissa has at most 53 significant bits is exact *)
+Lemma decode_exact s X m j :
+  two52 <= m < two53 -> 0 <= j <= 3 -> 0 <= X <= 127 ->
+  gds_decode ((sbit s + X) * two56 + m * 2 ^ j) = f64_of_norm s m (4 * (X - 64) - 56 + j).
+Proof.
+  intros Hm Hj HX.
+  pose proof (pow2_small j Hj) as Hp.
+  assert (HM : 0 <= m * 2 ^ j < two56) by (consts; nia).
+  destruct (gds_fields _ s X (m * 2 ^ j) eq_refl HX HM) as (_ & Hs & He & Hmt).
+  rewrite (gds_decode_nz _ m (52 + j)).
+  - rewrite Hs. unfold gds_e2. rewrite He. f_equal. lia.
+  - rewrite Hmt. consts. nia.
+  - rewrite Hmt. apply rne53_exact; assumption.
+Qed.
+
+(** * encode *)
+
+Lemma encode_with_decomp est x s m e :
+  f64_decomp x = Some (s, m, e) -> m <> 0 ->
+  gds_encode_with est x =
+    (sbit s + (64 + gds_exponent est m e)) * two56
+    + Z.min (rha m (e + 56 - 4 * gds_exponent est m e)) (two64 - 1) mod two56.
+Proof.
+  intros Hd Hm. unfold gds_encode_with. rewrite Hd.
+  destruct (Z.eqb_spec m 0) as [H|H]; [contradiction | reflexivity].
+Qed.
+
+Lemma true_exp16_norm m e : two52 <= m < two53 -> true_exp16 m e = (e + 56) / 4.
+Proof.
+  intros Hm. unfold true_exp16. cbv zeta. rewrite (log2_norm m Hm). f_equal. lia.
+Qed.
+
+(** encoding a normal double whose base-16 exponent E is in -64..63 *)
+Lemma encode_mid est x s m e E j :
+  f64_decomp x = Some (s, m, e) -> two52 <= m < two53 ->
+  e = 4 * E - 56 + j -> -64 <= E <= 63 -> 0 <= j <= 3 ->
+  gds_encode_with est x = (sbit s + (64 + E)) * two56 + m * 2 ^ j.
+Proof.
+  intros Hd Hm He HE Hj.
+  assert (Hm0 : 0 < m) by (consts; lia).
+  rewrite (encode_with_decomp est x s m e Hd) by lia.
+  rewrite (adj_fuel_enough est m e Hm0), (true_exp16_norm m e Hm).
+  assert (HE' : (e + 56) / 4 = E) by (subst e; dm_lia).
+  rewrite HE'. unfold clampZ.
+  replace (Z.max (-64) (Z.min 63 E)) with E by lia.
+  replace (e + 56 - 4 * E) with j by lia.
+  unfold rha. destruct (Z.leb_spec 0 j) as [H|H]; [|lia].
+  pose proof (pow2_small j Hj) as Hp.
+  assert (HM : 0 <= m * 2 ^ j < two56) by (consts; nia).
+  rewrite Z.min_l by (consts; lia).
+  rewrite Z.mod_small by exact HM. reflexivity.
+Qed.
+
+Lemma roundtrip_mid est s m e :
+  two52 <= m < two53 -> -312 <= e <= 199 ->
+  gds_decode (gds_encode_with est (f64_of_norm s m e)) = f64_of_norm s m e.
+Proof.
+  intros Hm He.
+  assert (Hd : f64_decomp (f64_of_norm s m e) = Some (s, m, e))
+    by (apply decomp_of_norm; [exact Hm | lia]).
+  rewrite (encode_mid est _ s m e ((e + 56) / 4) ((e + 56) mod 4) Hd Hm) by dm_lia.
+  rewrite decode_exact by (try exact Hm; dm_lia).
+  f_equal. dm_lia.
+Qed.
+
+(** * Doubles in the range of the format *)
+
+Lemma in_range_norm x :
+  word64 x -> in_gds_range x ->
+  exists s m e, f64_decomp x = Some (s, m, e) /\ x = f64_of_norm s m e /\
+    two52 <= m < two53 /\ -308 <= e <= 199.
+Proof.
+  intros Hw (s & m & e & Hd & Hm & Hlo & Hhi).
+  rewrite dy_lt_pow2_log2 in Hlo, Hhi by exact Hm.
+  apply Z.ltb_ge in Hlo. apply Z.ltb_lt in Hhi.
+  exists s, m, e.
+  assert (Hn : f64_normal x).
+  { split; [exact Hw|]. pose proof (bexp_range x) as Hb.
+    unfold f64_decomp in Hd. cbv zeta in Hd.
+    destruct (Z.eqb_spec (f64_bexp x) 2047) as [H1|H1]; [discriminate|].
+    destruct (Z.eqb_spec (f64_bexp x) 0) as [H2|H2]; [|lia].
+    exfalso. injection Hd as _ Hfm He. subst e.
+    assert (Hf : m < 2 ^ 52).
+    { subst m. unfold f64_frac. rewrite <- two52_eq. apply Z.mod_pos_bound. consts. lia. }
+    apply Z.log2_lt_pow2 in Hf; [lia | exact Hm]. }
+  destruct (norm_of_decomp x s m e Hn Hd) as (Hx & Hmr & Her).
+  rewrite (log2_norm m Hmr) in Hlo, Hhi.
+  repeat split; try assumption; lia.
+Qed.
+
+(** * (1)-(3): encoding of in-range doubles *)
+
+Theorem encode_is_reference :
+  forall est x, word64 x -> in_gds_range x ->
+    gds_encode_with est x = gds_spec_encode x.
+Proof.
+  intros est x Hw Hr.
+  destruct (in_range_norm x Hw Hr) as (s & m & e & Hd & Hx & Hm & He).
+  rewrite (encode_mid est x s m e ((e + 56) / 4) ((e + 56) mod 4) Hd Hm) by dm_lia.
+  unfold gds_spec_encode. rewrite Hd.
+  destruct (Z.eqb_spec m 0) as [H|H]; [consts; lia|].
+  cbv zeta. rewrite (true_exp16_norm m e Hm).
+  replace (e + 56 - 4 * ((e + 56) / 4)) with ((e + 56) mod 4) by dm_lia.
+  reflexivity.
+Qed.
+
+Theorem encode_exact :
+  forall est x s m e, word64 x -> in_gds_range x -> f64_decomp x = Some (s, m, e) ->
+    let w := gds_encode_with est x in
+    word64 w /\ gds_normalised w /\ gds_sign w = s /\
+    gds_e2 w <= e /\ gds_mant w = m * 2 ^ (e - gds_e2 w).
+Proof.
+  intros est x s m e Hw Hr Hd.
+  destruct (in_range_norm x Hw Hr) as (s' & m' & e' & Hd' & Hx & Hm & He).
+  rewrite Hd in Hd'. injection Hd' as <- <- <-.
+  cbv zeta.
+  set (E := (e + 56) / 4). set (j := (e + 56) mod 4).
+  assert (HE : -64 <= E <= 63) by (subst E; dm_lia).
+  assert (Hj : 0 <= j <= 3) by (subst j; dm_lia).
+  assert (Hej : e = 4 * E - 56 + j) by (subst E j; dm_lia).
+  rewrite (encode_mid est x s m e E j Hd Hm Hej HE Hj).
+  pose proof (pow2_small j Hj) as Hp.
+  assert (HM : 0 <= m * 2 ^ j < two56) by (consts; nia).
+  assert (HX : 0 <= 64 + E <= 127) by lia.
+  destruct (gds_fields _ s (64 + E) (m * 2 ^ j) eq_refl HX HM) as (Hw' & Hs & Hx7 & Hmt).
+  unfold gds_normalised, gds_e2. rewrite Hs, Hx7, Hmt.
+  repeat split; try (apply Hw'); try lia.
+  - consts; nia.
+  - f_equal. f_equal. lia.
+Qed.
+
+Theorem decode_encode :
+  forall est x, word64 x -> in_gds_range x ->
+    gds_decode (gds_encode_with est x) = x.
+Proof.
+  intros est x Hw Hr.
+  destruct (in_range_norm x Hw Hr) as (s & m & e & Hd & Hx & Hm & He).
+  rewrite Hx. apply roundtrip_mid; [exact Hm | lia].
+Qed.
+
+Theorem decode_encode_zero :
+  forall est x, f64_is_zero x = true ->
+    f64_is_zero (gds_decode (gds_encode_with est x)) = true.
+Proof.
+  intros est x Hz. unfold f64_is_zero in Hz. apply orb_true_iff in Hz.
+  assert (He : gds_encode_with est x = 0).
+  { destruct Hz as [Hz|Hz]; apply Z.eqb_eq in Hz; subst x; reflexivity. }
+  rewrite He. reflexivity.
+Qed.
+
+(** * (4): decode is correctly rounded *)
+
+Lemma gds_e2_range w : word64 w -> -312 <= gds_e2 w <= 196.
+Proof.
+  intros Hw. destruct (word_fields w Hw) as (_ & HX & _). unfold gds_e2. lia.
+Qed.
+
+Lemma log2_mant_range w : word64 w -> gds_mant w <> 0 ->
+  0 < gds_mant w < two56 /\ 0 <= Z.log2 (gds_mant w) <= 55.
+Proof.
+  intros Hw Hnz. destruct (word_fields w Hw) as (_ & _ & HM).
+  assert (H0 : 0 < gds_mant w) by lia.
+  split; [lia|]. split; [apply Z.log2_nonneg|].
+  assert (H : Z.log2 (gds_mant w) < 56); [|lia].
+  apply Z.log2_lt_pow2; [exact H0|]. rewrite <- two56_eq. lia.
+Qed.
+
+Theorem decode_correctly_rounded :
+  forall w, word64 w -> gds_mant w <> 0 ->
+    exists q, rne_of (gds_mant w) q /\
+      let e := Z.log2 (gds_mant w) - 52 + gds_e2 w in
+      gds_decode w = f64_of_dyadic (gds_sign w) q e /\
+      f64_normal (gds_decode w) /\ f64_sign (gds_decode w) = gds_sign w.
+Proof.
+  intros w Hw Hnz.
+  destruct (log2_mant_range w Hw Hnz) as (HM & HL).
+  pose proof (gds_e2_range w Hw) as He2.
+  destruct (rne53_spec (gds_mant w) HM) as (q & Hq & Hr).
+  exists q. split; [exact Hq|]. cbv zeta.
+  assert (Hqr : two52 <= q <= two53) by (apply Hq).
+  assert (Hdec : gds_decode w =
+            f64_of_dyadic (gds_sign w) q (Z.log2 (gds_mant w) - 52 + gds_e2 w)).
+  { unfold f64_of_dyadic. destruct (Z.eqb_spec q two53) as [H|H].
+    - rewrite (gds_decode_nz w _ _ Hnz Hr). f_equal. lia.
+    - rewrite (gds_decode_nz w _ _ Hnz Hr). reflexivity. }
+  split; [exact Hdec|]. rewrite Hdec. unfold f64_of_dyadic.
+  destruct (Z.eqb_spec q two53) as [H|H].
+  - split; [apply normal_of_norm | apply sign_of_norm]; consts; lia.
+  - split; [apply normal_of_norm | apply sign_of_norm]; consts; lia.
+Qed.
+
+Theorem rne_unique :
+  forall M q1 q2, 0 < M -> rne_of M q1 -> rne_of M q2 -> q1 = q2.
+Proof.
+  intros M q1 q2 HM (B1 & S1 & R1) (B2 & S2 & R2).
+  cbv zeta in *.
+  destruct (Z.le_gt_cases (Z.log2 M - 52) 0) as [Hs|Hs].
+  - rewrite (S1 Hs), (S2 Hs). reflexivity.
+  - destruct (R1 Hs) as [A1 E1]. destruct (R2 Hs) as [A2 E2].
+    clear S1 S2 R1 R2.
+    assert (HP : 0 < 2 ^ (Z.log2 M - 52)) by (apply Z.pow_pos_nonneg; lia).
+    set (P := 2 ^ (Z.log2 M - 52)) in *.
+    destruct (Z.lt_trichotomy q1 q2) as [Hlt|[Heq|Hgt]]; [|exact Heq|]; exfalso.
+    + assert (Hm : (q1 + 1) * P <= q2 * P) by (apply Z.mul_le_mono_nonneg_r; lia).
+      assert (Hq : q2 * P = (q1 + 1) * P) by lia.
+      apply Z.mul_cancel_r in Hq; [|lia]. subst q2.
+      assert (Ev1 : Z.even q1 = true) by (apply E1; lia).
+      assert (Ev2 : Z.even (q1 + 1) = true) by (apply E2; lia).
+      rewrite Z.add_1_r, Z.even_succ, <- Z.negb_even, Ev1 in Ev2. discriminate.
+    + assert (Hm : (q2 + 1) * P <= q1 * P) by (apply Z.mul_le_mono_nonneg_r; lia).
+      assert (Hq : q1 * P = (q2 + 1) * P) by lia.
+      apply Z.mul_cancel_r in Hq; [|lia]. subst q1.
+      assert (Ev2 : Z.even q2 = true) by (apply E2; lia).
+      assert (Ev1 : Z.even (q2 + 1) = true) by (apply E1; lia).
+      rewrite Z.add_1_r, Z.even_succ, <- Z.negb_even, Ev2 in Ev1. discriminate.
+Qed.
+
+Theorem decode_zero_mantissa :
+  forall w, word64 w -> gds_mant w = 0 -> f64_is_zero (gds_decode w) = true.
+Proof.
+  intros w _ Hz. unfold gds_decode. cbv zeta. rewrite Hz.
+  change (0 =? 0) with true. cbv iota.
+  destruct (gds_sign w); reflexivity.
+Qed.
+
+(** * (5): re-encoding a 53-bit normalised real *)
+
+Theorem encode_decode53 :
+  forall est w, word64 w -> gds_normalised w -> sig53 (gds_mant w) ->
+    gds_encode_with est (gds_decode w) = w.
+Proof.
+  intros est w Hw Hn H53. unfold gds_normalised in Hn. unfold sig53 in H53.
+  destruct (word_fields w Hw) as (Hweq & HX & HM).
+  set (M := gds_mant w) in *. set (X := gds_exp7 w) in *. set (s := gds_sign w) in *.
+  assert (HM0 : 0 < M) by (consts; lia).
+  assert (HL : 52 <= Z.log2 M <= 55).
+  { split.
+    - apply Z.log2_le_pow2; [exact HM0|]. rewrite <- two52_eq. exact Hn.
+    - assert (H : Z.log2 M < 56); [|lia].
+      apply Z.log2_lt_pow2; [exact HM0|]. rewrite <- two56_eq. lia. }
+  set (j := Z.log2 M - 52) in *.
+  assert (Hj : 0 <= j <= 3) by lia.
+  assert (Hp : 0 < 2 ^ j) by (apply Z.pow_pos_nonneg; lia).
+  apply Z.div_exact in H53; [|lia].
+  set (q := M / 2 ^ j) in *.
+  assert (HMq : M = q * 2 ^ j) by lia.
+  assert (Hq0 : 0 < q) by nia.
+  assert (Hlq : Z.log2 q = 52).
+  { assert (H : Z.log2 M = j + Z.log2 q)
+      by (rewrite HMq at 1; apply Z.log2_mul_pow2; lia).
+    lia. }
+  assert (Hq : two52 <= q < two53).
+  { pose proof (Z.log2_spec q Hq0) as Hsp. rewrite Hlq in Hsp. exact Hsp. }
+  assert (Hweq' : w = (sbit s + X) * two56 + q * 2 ^ j) by (rewrite <- HMq; exact Hweq).
+  rewrite Hweq'.
+  rewrite (decode_exact s X q j Hq Hj HX).
+  assert (Hd : f64_decomp (f64_of_norm s q (4 * (X - 64) - 56 + j))
+               = Some (s, q, 4 * (X - 64) - 56 + j))
+    by (apply decomp_of_norm; [exact Hq | lia]).
+  rewrite (encode_mid est _ s q _ (X - 64) j Hd Hq eq_refl) by lia.
+  f_equal. f_equal. lia.
+Qed.
+
+(** * (6): decode . encode . decode = decode *)
+
+Lemma rha_exact_neg A t : 0 < t -> rha (A * 2 ^ t) (- t) = A.
+Proof.
+  intros Ht. unfold rha. destruct (Z.leb_spec 0 (- t)) as [H|H]; [lia|].
+  replace (- - t - 1) with (t - 1) by lia. replace (- - t) with t by lia.
+  assert (Hh : 0 < 2 ^ (t - 1)) by (apply Z.pow_pos_nonneg; lia).
+  assert (E : 2 ^ t = 2 * 2 ^ (t - 1)).
+  { rewrite <- Z.pow_succ_r by lia. f_equal. lia. }
+  rewrite Z.div_add_l by lia. rewrite Z.div_small by lia. lia.
+Qed.
+
+(** the rounded significand and exponent delivered by [rne53] *)
+Lemma rne53_range M :
+  0 < M < two56 ->
+  exists m k, rne53 M = (m, k) /\ two52 <= m < two53 /\
+    Z.log2 M <= k <= Z.log2 M + 1 /\
+    (k = 56 -> two56 - 4 <= M) /\
+    (Z.log2 M <= 52 -> k = Z.log2 M /\ m = M * 2 ^ (52 - Z.log2 M)).
+Proof.
+  intros HM.
+  destruct (rne53_spec M HM) as (q & Hq & Hr).
+  assert (H55 : Z.log2 M < 56).
+  { apply Z.log2_lt_pow2; [lia|]. rewrite <- two56_eq. lia. }
+  destruct Hq as (Hb & Hsm & Hbg). cbv zeta in *.
+  destruct (Z.eqb_spec q two53) as [H|H].
+  - exists two52, (Z.log2 M + 1). split; [exact Hr|].
+    split; [consts; lia|]. split; [lia|]. split.
+    + intros Hk. assert (HL : Z.log2 M = 55) by lia. rewrite HL in Hbg.
+      destruct Hbg as [Ha _]; [lia|]. subst q. pow_lit (55 - 52). consts. lia.
+    + intros Hs. exfalso.
+      pose proof (small_scaled_range M (proj1 HM) Hs) as Hrg.
+      rewrite Hsm in H by lia.
+      replace (- (Z.log2 M - 52)) with (52 - Z.log2 M) in H by lia. lia.
+  - exists q, (Z.log2 M). split; [exact Hr|].
+    split; [lia|]. split; [lia|]. split; [lia|].
+    intros Hs. split; [reflexivity|]. rewrite Hsm by lia. f_equal. f_equal. lia.
+Qed.
+
+(** The statement [decode_reencode_stable] of Properties/C15.v is FALSE of the model for
+    the eight words with exponent byte 127 and mantissa >= 2^56 - 4: they decode
+    (rounding up) to +-2^252 = 16^63, which is above the largest encodable exponent;
+    encode clamps the exponent to 63, the mantissa becomes 2^56 and is truncated to 0
+    by [mod two56], so the re-encoded word decodes to zero. *)
+Theorem decode_reencode_stable_refuted :
+  exists w, word64 w /\ forall est,
+    ~ (gds_decode (gds_encode_with est (gds_decode w)) = gds_decode w
+       \/ (f64_is_zero (gds_decode w) = true /\
+           f64_is_zero (gds_decode (gds_encode_with est (gds_decode w))) = true)).
+Proof.
+  exists 9223372036854775807 (* 0x7FFFFFFFFFFFFFFF *).
+  split; [unfold word64; consts; lia|].
+  intros est.
+  assert (Hd : gds_decode 9223372036854775807 = f64_of_norm false two52 200)
+    by (vm_compute; reflexivity).
+  rewrite Hd.
+  assert (Hdc : f64_decomp (f64_of_norm false two52 200) = Some (false, two52, 200))
+    by (vm_compute; reflexivity).
+  assert (He : gds_encode_with est (f64_of_norm false two52 200) = 127 * two56).
+  { rewrite (encode_with_decomp est _ false two52 200 Hdc) by (consts; lia).
+    rewrite adj_fuel_enough by (consts; lia). vm_compute. reflexivity. }
+  rewrite He. vm_compute. intros [H|[H _]]; discriminate H.
+Qed.
+
+(** It holds for every other word. *)
+Theorem decode_reencode_stable_below_max :
+  forall est w, word64 w ->
+    ~ (gds_exp7 w = 127 /\ two56 - 4 <= gds_mant w) ->
+    gds_decode (gds_encode_with est (gds_decode w)) = gds_decode w
+    \/ (f64_is_zero (gds_decode w) = true /\
+        f64_is_zero (gds_decode (gds_encode_with est (gds_decode w))) = true).
+Proof.
+  intros est w Hw Hnot.
+  destruct (Z.eq_dec (gds_mant w) 0) as [Hz|Hnz].
+  { right. pose proof (decode_zero_mantissa w Hw Hz) as H0. split; [exact H0|].
+    apply decode_encode_zero. exact H0. }
+  left.
+  destruct (word_fields w Hw) as (Hweq & HX & _).
+  destruct (log2_mant_range w Hw Hnz) as (HM & HL).
+  destruct (rne53_range (gds_mant w) HM) as (m & k & Hr & Hm & Hk & Hk56 & Hsmall).
+  rewrite (gds_decode_nz w m k Hnz Hr). unfold gds_e2.
+  set (M := gds_mant w) in *. set (X := gds_exp7 w) in *. set (s := gds_sign w) in *.
+  destruct (Z.le_gt_cases (-312) (k - 52 + (4 * (X - 64) - 56))) as [Hlo|Hlo].
+  - (* base-16 exponent within -64..63 *)
+    apply roundtrip_mid; [exact Hm|]. split; [exact Hlo|].
+    destruct (Z.eq_dec k 56) as [H56|H56]; [|lia].
+    specialize (Hk56 H56). lia.
+  - (* below 16^-65: the exponent is clamped to -64 and the mantissa is de-normalised *)
+    assert (Hs52 : Z.log2 M <= 52) by lia.
+    destruct (Hsmall Hs52) as (Hk' & Hm'). subst k.
+    set (L := Z.log2 M) in *.
+    set (t := 52 - L - 4 * X).
+    assert (Ht : 0 < t) by (subst t; lia).
+    set (e := L - 52 + (4 * (X - 64) - 56)) in *.
+    assert (Hm0 : 0 < m) by (consts; lia).
+    assert (Hmt : m = M * 2 ^ (4 * X) * 2 ^ t).
+    { rewrite Hm', <- Z.mul_assoc, <- Z.pow_add_r by lia. f_equal. f_equal. subst t. lia. }
+    assert (Hd : f64_decomp (f64_of_norm s m e) = Some (s, m, e))
+      by (apply decomp_of_norm; [exact Hm | subst e; lia]).
+    rewrite (encode_with_decomp est _ s m e Hd) by lia.
+    rewrite (adj_fuel_enough est m e Hm0), (true_exp16_norm m e Hm).
+    assert (Hcl : clampZ (-64) 63 ((e + 56) / 4) = -64)
+      by (unfold clampZ; subst e; dm_lia).
+    rewrite Hcl.
+    replace (e + 56 - 4 * -64) with (- t) by (subst e t; lia).
+    rewrite Hmt at 1. rewrite rha_exact_neg by exact Ht.
+    set (M' := M * 2 ^ (4 * X)).
+    assert (HM'0 : 0 < M') by (subst M'; apply Z.mul_pos_pos; [lia | apply Z.pow_pos_nonneg; lia]).
+    assert (HL' : Z.log2 M' = 4 * X + L) by (subst M' L; apply Z.log2_mul_pow2; lia).
+    assert (HM' : M' < two52).
+    { rewrite two52_eq. apply Z.log2_lt_pow2; [exact HM'0|]. subst t. lia. }
+    rewrite Z.min_l by (consts; lia).
+    rewrite Z.mod_small by (consts; lia).
+    assert (HX0 : 0 <= 64 + -64 <= 127) by lia.
+    assert (HMr : 0 <= M' < two56) by (consts; lia).
+    destruct (gds_fields _ s (64 + -64) M' eq_refl HX0 HMr) as (_ & Hs' & Hx7' & Hmt').
+    rewrite (gds_decode_nz _ (M' * 2 ^ (52 - Z.log2 M')) (Z.log2 M')).
+    + rewrite Hs'. unfold gds_e2. rewrite Hx7'. rewrite HL'. f_equal.
+      * rewrite Hm'. subst M'. rewrite <- Z.mul_assoc, <- Z.pow_add_r by lia.
+        f_equal. f_equal. lia.
+      * subst e. lia.
+    + rewrite Hmt'. lia.
+    + rewrite Hmt'. apply rne53_small; [exact HM'0 | lia].
+Qed.
+
+(** * The code before the repair *)
+
+Theorem orig_refuted :
+  exists x est, word64 x /\ in_gds_rangeb x = true /\
+    gds_decode (gds_encode_orig_with est x) <> x.
+Proof.
+  exists 4625196817309499391 (* 0x402FFFFFFFFFFFFF = 16 - 2^-49 *), 2.
+  split; [unfold word64; consts; lia|].
+  split; [vm_compute; reflexivity|].
+  vm_compute. intros H. discriminate H.
+Qed.
